@@ -180,8 +180,8 @@ def liftB (s : FleetStore) (r : BufStore × BufStore.Res) : FleetStore × BufSto
 def step (s0 : FleetStore) (op : Op) : FleetStore × BufStore.Res :=
   let s := { s0 with b := { s0.b with fired := [] }, newReady := [] }
   match op with
-  | .reservePut p => s.liftB (s.b.reservePut p)
-  | .reserveGet p => s.liftB (s.b.reserveGet p)
+  | .reservePut p => s.liftB (s.b.reservePutP p 0)      -- `reserve_put()` is `reserve_put(priority=0)`: the queue is re-sorted every time
+  | .reserveGet p => s.liftB (s.b.reserveGetP p 0)
   | .reservePutP p pr => s.liftB (s.b.reservePutP p pr)
   | .reserveGetP p pr => s.liftB (s.b.reserveGetP p pr)
   | .put p t x => s.put p t x
